@@ -6,7 +6,7 @@ use serde::{Deserialize, Serialize};
 use crate::{
     core::{CaseResult, Property, RandomPart, Tier},
     seg::{seg_strategy, Seg},
-    streamlab::{run, Flavour, Terminal, FLAVOURS, GREETING},
+    streamlab::{run, Flavour, Terminal, GREETING},
     wire::{self, AResp},
 };
 
@@ -104,7 +104,7 @@ fn strategy(tier: Tier) -> BoxedStrategy<Case> {
     (
         prop_oneof![12 => wire::responses_maybe_huge(6, max_payload, tier.pick(6_000, 20_000), 40), 1 => wire::long_sequence()],
         seg_strategy(6000),
-        (0..3usize).prop_map(|i| FLAVOURS[i]),
+        prop_oneof![3 => 0..3usize, 1 => 3..5usize].prop_map(|i| crate::streamlab::ALL_FLAVOURS[i]),
         prop_oneof![3 => Just(0u8), 1 => Just(1u8), 1 => Just(2u8)],
     )
         .prop_map(|(resps, seg, flavour, via)| Case { resps, seg, flavour, via })
@@ -155,7 +155,7 @@ pub fn property(_tier: Tier) -> Property {
         level: "exploration",
         parts: vec![Box::new(RandomPart {
             name: "roundtrip",
-            rule: "proptest: 1-6 abstract responses (Single/List/Failed; keys incl. OK/list_OK/ACK/binary; values incl. keyword look-alikes, NUL, CR, multi-byte, up to 6k (thorough 20k) chars; payloads incl. protocol look-alikes and buffer-edge sizes up to 20k (40k)) on one connection, one generated segmentation, one of blocking/async/async-with-spurious-pending; non-trivial = keyword mimic, payload, list form with >=2 frames, error after >=1 completed frame, or >=2 responses; distinct by serialised case",
+            rule: "proptest: 1-6 abstract responses (Single/List/Failed; keys incl. OK/list_OK/ACK/binary; values incl. keyword look-alikes, NUL, CR, multi-byte, up to 6k (thorough 20k) chars; payloads incl. protocol look-alikes and buffer-edge sizes up to 20k (40k)) on one connection, one generated segmentation, one of blocking/async/async-with-spurious-pending (1 in 4: blocking interrupted by a transient WouldBlock before every read and called again / async with every pending receive future dropped and re-created); non-trivial = keyword mimic, payload, list form with >=2 frames, error after >=1 completed frame, or >=2 responses; distinct by serialised case",
             cases: (6_000, 400_000),
             strategy: Box::new(strategy),
             check: Box::new(check),
